@@ -202,6 +202,14 @@ class DULServiceProvider(threading.Thread):
             self.to_service_user.put(pdu.AAbortPDU(source=0, reason_diag=0))
             raise
         finally:
+            if self.dul_socket is not None:
+                # service is stopped while transport connection is still open (e.g. remote AE
+                # never closed it after release, abort or reject): do not leave it behind
+                try:
+                    self.dul_socket.close()
+                except socket.error:
+                    pass
+                self.dul_socket = None
             self._is_killed.set()
 
     def _connection_lost(self):
